@@ -1316,7 +1316,7 @@ def run(ctx):
         big = it % 40 == 7
         p = rng.choice(EDGE_P_BIG) if big else rng.choice(EDGE_P)
         n = rng.choice([3, 4, 6]) if big else rng.choice([2, 3, 5, 8, 9, 12, 20, 40, p, rng.randint(2, 60)])
-        do_edge(n, p, coq=(n * p <= 128 and it % 2 == 0) or (ctx.thorough and n * p <= 600))
+        do_edge(n, p, coq=it % 2 == 0 and n * p <= ctx.scale(128, 300))
     for it in range(ctx.scale(24, 300)):
         name = rng.choice(["Log", "BoxCox2", "Reciprocal"])
         spec = gen_trans(rng, name)
